@@ -3,7 +3,7 @@
    an empty list and the explicit ValueErrors are the outcome [None] (= the implementation raises). *)
 From Coq Require Import List ZArith Bool QArith Qabs.
 Import ListNotations.
-From Verif Require Import Val.
+From Verif Require Import Val IfthenPrec.
 Local Open Scope Z_scope.
 
 Inductive rel := Lt | Gt | Eq.
@@ -15,8 +15,9 @@ Inductive tok :=
 | TSpace            (* catcode-10 token: skipped *)
 | TJunk.            (* any other token: treated as an operator of precedence 0 *)
 
+(* ifthenelse.prec; the three values are regenerated from the source on every run (Gen/IfthenPrec.v) *)
 Definition prec (t : tok) : nat :=
-  match t with TRel _ => 2 | TAnd | TOr | TNot => 1 | _ => 0 end.
+  match t with TRel _ => gen_prec_rel | TAnd | TOr | TNot => gen_prec_op | _ => gen_prec_default end.
 
 (* while stack and prec(tok) <= prec(stack[-1]): postfix.append(stack.pop())     (out is kept reversed) *)
 Fixpoint pop_while (p : nat) (st out : list tok) : list tok * list tok :=
